@@ -1,5 +1,34 @@
 package vapp
 
-// allowWrapped: wrapped-currency allowance of a block (locks / failed-redeem refunds that
-// reached witness finality in it); filled in with the tracker subsystem.
-func (b *BlockRecord) allowWrapped(prev *AbsState) map[string]int64 { return nil }
+import "fmt"
+
+// allowWrapped: wrapped-currency allowance of a block: locks and failed-redeem refunds that
+// reached witness finality in it (the tracker completed in this block).
+func (b *BlockRecord) allowWrapped(prev *AbsState) map[string]int64 {
+	out := map[string]int64{}
+	if b.State == nil {
+		return out
+	}
+	now, _ := ethTrk(b.State)
+	before, _ := ethTrk(prev)
+	for n, t := range now {
+		p, existed := before[n]
+		completed := func(x EthTrk) bool { return x.Store != "ongoing" || x.Done }
+		if !completed(t) || (existed && completed(p)) {
+			continue
+		}
+		yes := 0
+		for _, v := range t.Votes {
+			if v == 1 {
+				yes++
+			}
+		}
+		success := t.Store == "passed" || (t.Store == "ongoing" && yes >= len(t.Wits)*2/3+1)
+		if (t.Type == "lock" && success) || (t.Type == "redeem" && !success) {
+			out["ETH"] += t.Amt
+		}
+	}
+	return out
+}
+
+var _ = fmt.Sprint
